@@ -79,6 +79,36 @@ func ruleSetVariableInitializer(c *Ctx, rule string) {
 				}
 			}
 		}
+		// the library form of the same search: i := slices.IndexFunc(spec.Names, func(id) bool { return id.Name == obj.Name() })
+		if !okIdx {
+			if call, isCall := resolve(ia.Index).(*ssa.Call); isCall {
+				if cal := call.Common().StaticCallee(); cal != nil && fnPkgPath(cal) == "slices" && strings.HasPrefix(cal.Name(), "IndexFunc") && len(call.Common().Args) == 2 {
+					if loadsField(call.Common().Args[0], "go/ast.ValueSpec.Names") && sameSpec(call.Common().Args[0], ia.X) {
+						if mc, isMC := resolve(call.Common().Args[1]).(*ssa.MakeClosure); isMC {
+							pf := mc.Fn.(*ssa.Function)
+							rs := returnsOf(pf)
+							if len(rs) == 1 && len(pf.Params) == 1 {
+								if bo, isB := rs[0].Results[0].(*ssa.BinOp); isB && bo.Op == token.EQL {
+									for _, side := range [][2]ssa.Value{{bo.X, bo.Y}, {bo.Y, bo.X}} {
+										nameLd, isL := side[0].(*ssa.UnOp)
+										if !isL {
+											continue
+										}
+										fa, isF := nameLd.X.(*ssa.FieldAddr)
+										if !isF || fieldKey(fa) != "go/ast.Ident.Name" || resolve(fa.X) != ssa.Value(pf.Params[0]) {
+											continue
+										}
+										if objName, isC := side[1].(*ssa.Call); isC && objName.Common().StaticCallee() != nil && objName.Common().StaticCallee().Name() == "Name" {
+											okIdx, why = true, "Values[slices.IndexFunc(Names, name == obj.Name())] of the same spec"
+										}
+									}
+								}
+							}
+						}
+					}
+				}
+			}
+		}
 		c.check(okIdx, rule, "getVarDecl:initializer-of-the-named-variable", L.pos(r.Pos()),
 			"a Set variable resolves to its own initializer (the Values element at the index of its name in the spec)", why)
 	}
@@ -510,7 +540,38 @@ func rulePoolsAppendOnly(c *Ctx, rule string) {
 	c.floor(rule, "stores into a pool slot in Build", n, 1)
 	// and nothing rearranges a list of nodes in place afterwards: no element store into a []*node, no library call that
 	// permutes one (a later pass that "improves" the order inside a lane breaks what the wait flags were computed for)
-	nodeList := func(t types.Type) bool { return t.String() == "[]*"+genPkg+".node" }
+	nodeListT := func(t types.Type) bool { return t.String() == "[]*"+genPkg+".node" }
+	// a lane or the graph's node list: a pool read from the pool table, a list handed in as a parameter, a field of the
+	// graph - not a list the function has just built for itself (a path for an error message, a work list)
+	var shared func(v ssa.Value, d int) bool
+	shared = func(v ssa.Value, d int) bool {
+		if d > 4 {
+			return false
+		}
+		switch x := resolve(v).(type) {
+		case *ssa.Parameter:
+			return true
+		case *ssa.UnOp:
+			if x.Op == token.MUL {
+				switch a := x.X.(type) {
+				case *ssa.IndexAddr:
+					return strings.HasSuffix(a.X.Type().String(), "[][]*"+genPkg+".node")
+				case *ssa.FieldAddr:
+					return true
+				}
+			}
+		case *ssa.Slice:
+			return shared(x.X, d+1)
+		case *ssa.Phi:
+			for _, e := range x.Edges {
+				if shared(e, d+1) {
+					return true
+				}
+			}
+		}
+		return false
+	}
+	nodeList := func(t types.Type) bool { return nodeListT(t) }
 	for _, fn := range pkgFuncs(L, genPkg) {
 		for _, b := range fn.Blocks {
 			for _, in := range b.Instrs {
@@ -528,6 +589,9 @@ func rulePoolsAppendOnly(c *Ctx, rule string) {
 							continue // the backing array of a literal or of variadic arguments
 						}
 					}
+					if !shared(ia.X, 0) {
+						continue
+					}
 					c.fail(rule, fnName(fn)+":node-list-rearranged", L.pos(x.Pos()), "an element of a list of nodes is overwritten in place: the order of a lane (or of the node list) is changed after it was decided", describe(ia.X))
 				case *ssa.Call:
 					cal := x.Common().StaticCallee()
@@ -537,7 +601,7 @@ func rulePoolsAppendOnly(c *Ctx, rule string) {
 					switch {
 					case strings.HasPrefix(cal.Name(), "Sort"), strings.HasPrefix(cal.Name(), "Reverse"), strings.HasPrefix(cal.Name(), "Insert"), strings.HasPrefix(cal.Name(), "Delete"), strings.HasPrefix(cal.Name(), "Replace"), strings.HasPrefix(cal.Name(), "Compact"), cal.Name() == "Slice", cal.Name() == "SliceStable", cal.Name() == "Stable":
 						for _, a := range x.Common().Args {
-							if nodeList(a.Type()) {
+							if nodeList(a.Type()) && shared(a, 0) {
 								c.fail(rule, fnName(fn)+":node-list-rearranged", L.pos(x.Pos()), "a list of nodes is permuted by "+cal.Name()+": the order of a lane (or of the node list) is changed after it was decided", describe(a))
 							}
 						}
@@ -1983,25 +2047,35 @@ func ruleSchedulerReadsAsyncFlag(c *Ctx, rule string) {
 		return
 	}
 	n := 0
-	for _, b := range fn.Blocks {
-		if len(b.Instrs) == 0 {
+	fam := family(L, fn)
+	for _, g := range fam {
+		if g.Parent() != nil {
 			continue
 		}
-		iff, ok := b.Instrs[len(b.Instrs)-1].(*ssa.If)
-		if !ok {
-			continue
-		}
-		s := newSym(L, map[string]bool{})
-		s.maxD = 2 // a pure accessor helper is looked through
-		t := strings.Join(s.eval(iff.Cond), "|")
-		if strings.Contains(t, "field:internal/kessoku.ProviderSpec.IsAsync(") {
-			n++
-		}
-		if strings.Contains(t, genPkg+".") || strings.Contains(t, "(*"+genPkg) {
-			c.fail(rule, fnName(fn)+":scheduling-predicate", L.pos(iff.Cond.Pos()), "findOptimalPool decides through a predicate of its own instead of the provider's IsAsync flag (the flag buildStmts and Build read)", t)
+		for _, b := range g.Blocks {
+			if len(b.Instrs) == 0 {
+				continue
+			}
+			iff, ok := b.Instrs[len(b.Instrs)-1].(*ssa.If)
+			if !ok {
+				continue
+			}
+			s := newSym(L, map[string]bool{})
+			s.maxD = 2 // a pure accessor helper is looked through
+			ts := s.eval(iff.Cond)
+			if g != fn {
+				ts = liftParams(L, fam, g, ts) // a phase helper that is handed the flag (or the node) by findOptimalPool
+			}
+			t := strings.Join(ts, "|")
+			if strings.Contains(t, "field:internal/kessoku.ProviderSpec.IsAsync(") {
+				n++
+			}
+			if (strings.Contains(t, genPkg+".") || strings.Contains(t, "(*"+genPkg)) && condRootedAtModuleCall(iff.Cond) {
+				c.fail(rule, fnName(g)+":scheduling-predicate", L.pos(iff.Cond.Pos()), "findOptimalPool decides through a predicate of its own instead of the provider's IsAsync flag (the flag buildStmts and Build read)", t)
+			}
 		}
 	}
-	c.floor(rule, "decisions on ProviderSpec.IsAsync in findOptimalPool", n, 4)
+	c.floor(rule, "decisions on ProviderSpec.IsAsync in findOptimalPool", n, 3)
 }
 
 // ruleWaitCheckedWhenFallible: whenever the injector has an error result, the error of eg.Wait() is tested and returned; the
@@ -3207,13 +3281,21 @@ func ruleArgminOverCandidates(c *Ctx, rule string) {
 		return
 	}
 	n := 0
-	for _, b := range fn.Blocks {
+	var famBlocks []*ssa.BasicBlock
+	for _, g := range family(L, fn) {
+		if g.Parent() == nil {
+			famBlocks = append(famBlocks, g.Blocks...)
+		}
+	}
+	for _, b := range famBlocks {
 		for _, in := range b.Instrs {
 			bo, ok := in.(*ssa.BinOp)
 			if !ok || bo.Op != token.LSS {
 				continue
 			}
 			lenOfPool := func(v ssa.Value) (*ssa.IndexAddr, bool) {
+				// (a pool's size may be hoisted into a local first)
+				v = resolve(v)
 				call, ok := v.(*ssa.Call)
 				if !ok {
 					return nil, false
@@ -4201,4 +4283,201 @@ func ruleSourceImportKeys(c *Ctx, rule string) {
 		}
 	}
 	c.floor(rule, "inserts into the source import table", n, 1)
+}
+
+// loopDepthOf: how many loops enclose an instruction (range-over-func bodies count as the loop they are the body of).
+func loopDepthOf(in ssa.Instruction) int {
+	b := in.Block()
+	fn := b.Parent()
+	d := 0
+	for h := b; h != nil; h = h.Idom() {
+		isHdr := strings.HasPrefix(h.Comment, "rangeindex.loop") || strings.HasPrefix(h.Comment, "rangeiter.loop") || strings.HasPrefix(h.Comment, "for.loop") || strings.HasPrefix(h.Comment, "for.body")
+		if isHdr && strings.HasPrefix(h.Comment, "for.body") {
+			isHdr = false
+		}
+		if isHdr && (h == b || reachable(b, h)) {
+			d++
+		}
+	}
+	if strings.Contains(fn.Synthetic, "range-over-func") && fn.Parent() != nil {
+		// the body of a `for x := range seq` loop of the parent: one loop, plus whatever encloses that loop there
+		d++
+		for _, pb := range fn.Parent().Blocks {
+			for _, pin := range pb.Instrs {
+				if mc, ok := pin.(*ssa.MakeClosure); ok && mc.Fn == ssa.Value(fn) {
+					d += loopDepthOf(mc)
+					return d
+				}
+			}
+		}
+	}
+	return d
+}
+
+// ruleCandidatePoolScannedWhole: before an Async provider joins a candidate pool, findOptimalPool looks at the pool's nodes
+// one after the other (from the end, until it meets one of the provider's own inputs) and rejects the pool as soon as one of
+// them is Async: the test of a pool member's IsAsync flag sits in a loop over the pool inside the loop over the candidates.
+// Looking at the last node only lets an input-free Async provider queue behind another one that a synchronous node hides.
+func ruleCandidatePoolScannedWhole(c *Ctx, rule string) {
+	L := c.L
+	fn := genFn(c, rule, "(*Graph).findOptimalPool")
+	if fn == nil {
+		return
+	}
+	n, deep := 0, 0
+	for _, g := range family(L, fn) {
+		for _, b := range g.Blocks {
+			if len(b.Instrs) == 0 {
+				continue
+			}
+			iff, ok := b.Instrs[len(b.Instrs)-1].(*ssa.If)
+			if !ok {
+				continue
+			}
+			s := newSym(L, map[string]bool{})
+			s.maxD = 0
+			t := strings.Join(s.eval(iff.Cond), "|")
+			// the flag of a member of a pool (an element of an element of the pool table), not of the scheduled node
+			if !strings.Contains(t, "ProviderSpec.IsAsync(field:internal/kessoku.node.providerSpec(") {
+				continue
+			}
+			member := strings.Contains(t, "index(index(")
+			if !member && strings.Contains(g.Synthetic, "range-over-func") && g.Parent() != nil {
+				// `for _, nd := range slices.Backward(pools[i])`: the element is the yield function's parameter; the sequence
+				// was made from a pool
+				for _, prm := range g.Params {
+					if !strings.Contains(t, "providerSpec(param:"+prm.Name()+")") {
+						continue
+					}
+					for _, pb := range g.Parent().Blocks {
+						for _, pin := range pb.Instrs {
+							call, isCall := pin.(*ssa.Call)
+							if !isCall {
+								continue
+							}
+							for _, a := range call.Common().Args {
+								if mc, isMC := a.(*ssa.MakeClosure); isMC && mc.Fn == ssa.Value(g) {
+									// call.Common().Value is the sequence: built by a call that was given a pool
+									if seq, isSeq := call.Common().Value.(*ssa.Call); isSeq {
+										for _, sa := range seq.Common().Args {
+											if ld, isLd := sa.(*ssa.UnOp); isLd && ld.Op == token.MUL {
+												if ia, isIA := ld.X.(*ssa.IndexAddr); isIA && strings.HasSuffix(ia.X.Type().String(), "[][]*"+genPkg+".node") {
+													member = true
+												}
+											}
+										}
+									}
+								}
+							}
+						}
+					}
+				}
+			}
+			if !member {
+				continue
+			}
+			n++
+			if loopDepthOf(iff) >= 2 {
+				deep++
+			}
+		}
+	}
+	c.check(n > 0 && deep == n, rule, "findOptimalPool:candidate-pool-scanned-member-by-member", L.pos(fn.Pos()),
+		"a candidate pool is examined member by member (a loop over the pool inside the loop over the candidates) before an Async provider joins it", fmt.Sprintf("%d tests of a pool member's IsAsync flag, %d of them inside a nested loop", n, deep))
+}
+
+// ruleHandlerPassedUnchanged: below generateStmts the early-return builder is only handed on: a function that received one
+// passes that very value to whatever it calls - never nil in its place on some path. The builder being nil is what turns a
+// cancellable wait into a plain receive, and whether it is nil is decided once, from the injector's error result.
+func ruleHandlerPassedUnchanged(c *Ctx, rule string) {
+	L := c.L
+	n := 0
+	for _, fn := range pkgFuncs(L, genPkg) {
+		var own []*ssa.Parameter
+		for _, prm := range fn.Params {
+			if isHandlerSig(prm.Type()) {
+				own = append(own, prm)
+			}
+		}
+		if len(own) == 0 {
+			continue
+		}
+		for _, cs := range callsIn(fn) {
+			for _, a := range cs.common.Args {
+				if !isHandlerSig(a.Type()) {
+					continue
+				}
+				n++
+				okV, why := true, describe(a)
+				var visit func(v ssa.Value, d int)
+				visit = func(v ssa.Value, d int) {
+					if d > 4 {
+						return
+					}
+					switch x := v.(type) {
+					case *ssa.Phi:
+						for _, e := range x.Edges {
+							visit(e, d+1)
+						}
+					case *ssa.Const:
+						if x.Value == nil {
+							okV, why = false, "nil is passed instead of the builder this function was given, on some path"
+						}
+					case *ssa.UnOp:
+						if al, isAl := x.X.(*ssa.Alloc); isAl && x.Op == token.MUL {
+							for _, st := range storesTo(al) {
+								visit(st.Val, d+1)
+							}
+						}
+					}
+				}
+				visit(a, 0)
+				c.check(okV, rule, fnName(fn)+":handler-passed-on-unchanged", L.pos(cs.instr.Pos()),
+					"a function that was given an early-return builder passes it on as it is (never nil in its place)", why)
+			}
+		}
+	}
+	c.floor(rule, "early-return builders handed on below generateStmts", n, 3)
+}
+
+// condRootedAtModuleCall: the condition is (the negation of / a comparison with) the result of a call to a function of this
+// module - a predicate of the code base's own, as opposed to a library scan or an arithmetic test.
+func condRootedAtModuleCall(v ssa.Value) bool {
+	for i := 0; i < 6; i++ {
+		switch x := v.(type) {
+		case *ssa.Call:
+			cal := x.Common().StaticCallee()
+			if cal == nil {
+				_, isB := x.Common().Value.(*ssa.Builtin)
+				return !isB // a dynamic call: a predicate value
+			}
+			return strings.HasPrefix(fnPkgPath(cal), modPath)
+		case *ssa.UnOp:
+			if x.Op == token.NOT {
+				v = x.X
+				continue
+			}
+			return false
+		case *ssa.BinOp:
+			if _, ok := x.X.(*ssa.Call); ok {
+				v = x.X
+				continue
+			}
+			if _, ok := x.Y.(*ssa.Call); ok {
+				v = x.Y
+				continue
+			}
+			return false
+		case *ssa.Phi:
+			for _, e := range x.Edges {
+				if condRootedAtModuleCall(e) {
+					return true
+				}
+			}
+			return false
+		default:
+			return false
+		}
+	}
+	return false
 }
